@@ -77,11 +77,15 @@ pub fn take_build_log() -> BuildLog {
 }
 
 /// the value the stub writes for (query element, lane): finite, in [2,4), 52 bits of identity
-pub fn enc(xb: u64, yb: u64, lane: usize) -> f64 {
+pub fn enc(xb: u64, yb: u64, lane: usize, call: u32) -> f64 {
     let mut h = Fnv::new();
     h.u64(xb);
     h.u64(yb);
     h.u64(lane as u64);
+    // the callback index within the operation: every target the library hands out gets values
+    // that no other callback writes, so "which callback filled this result element" is decidable
+    // even for repeated query values
+    h.u64(call as u64);
     f64::from_bits(0x4000_0000_0000_0000 | (h.0 & 0x000f_ffff_ffff_ffff))
 }
 
@@ -130,7 +134,7 @@ fn check_data<S: Data<Elem = f64>, D: Dimension>(data: &ArrayBase<S, D>, e: &Exp
 }
 
 enum Decision {
-    Go { act: Act, do_yield: bool, check_acc: bool },
+    Go { act: Act, do_yield: bool, check_acc: bool, call: u32 },
     /// callback outside any harness operation: behave as a plain Ok strategy
     NoCtx,
 }
@@ -145,6 +149,9 @@ fn on_callback(e: &Expect, target_shape: &[usize], xb: u64, yb: u64) -> Decision
         };
         let k = ctx.log.calls as usize;
         ctx.log.calls += 1;
+        if ctx.log.seen.len() < 1024 {
+            ctx.log.seen.push((xb, yb));
+        }
         if target_shape != &e.trailing[..] {
             ctx.log.violations.push(format!("interp_into: target shape {:?} != data shape minus interpolated axes {:?}", target_shape, e.trailing));
         }
@@ -162,7 +169,7 @@ fn on_callback(e: &Expect, target_shape: &[usize], xb: u64, yb: u64) -> Decision
         }
         let act = ctx.plan.get(k).cloned().unwrap_or(Act::Ok);
         let do_yield = (ctx.yield_mask >> (k % 64)) & 1 == 1;
-        Decision::Go { act, do_yield, check_acc: ctx.check_acc }
+        Decision::Go { act, do_yield, check_acc: ctx.check_acc, call: k as u32 }
     })
 }
 
@@ -259,9 +266,9 @@ where
     fn interp_into(&self, it: &Interp1D<Sd, Sx, D, Self>, mut target: ArrayViewMut<'_, f64, D::Smaller>, x: f64) -> Result<(), InterpolateError> {
         let e = &*self.e;
         let xb = key(x);
-        let (act, do_yield, check_acc) = match on_callback(e, target.shape(), xb, 0) {
-            Decision::Go { act, do_yield, check_acc } => (act, do_yield, check_acc),
-            Decision::NoCtx => (Act::Ok, false, false),
+        let (act, do_yield, check_acc, call) = match on_callback(e, target.shape(), xb, 0) {
+            Decision::Go { act, do_yield, check_acc, call } => (act, do_yield, check_acc, call),
+            Decision::NoCtx => (Act::Ok, false, false, 0),
         };
         if check_acc {
             let lanes = e.lanes();
@@ -298,7 +305,7 @@ where
         // written before failing
         let n_write = if matches!(act, Act::Ok) { usize::MAX } else { (target.len() + 1) / 2 };
         for (lane, t) in target.iter_mut().enumerate().take(n_write) {
-            *t = enc(xb, 0, lane);
+            *t = enc(xb, 0, lane, call);
         }
         finish_callback(act)
     }
@@ -363,9 +370,9 @@ where
         let e = &*self.e;
         let xb = key(x);
         let yb = key(y);
-        let (act, do_yield, check_acc) = match on_callback(e, target.shape(), xb, yb) {
-            Decision::Go { act, do_yield, check_acc } => (act, do_yield, check_acc),
-            Decision::NoCtx => (Act::Ok, false, false),
+        let (act, do_yield, check_acc, call) = match on_callback(e, target.shape(), xb, yb) {
+            Decision::Go { act, do_yield, check_acc, call } => (act, do_yield, check_acc, call),
+            Decision::NoCtx => (Act::Ok, false, false, 0),
         };
         if check_acc {
             let lanes = e.lanes();
@@ -409,7 +416,7 @@ where
         }
         let n_write = if matches!(act, Act::Ok) { usize::MAX } else { (target.len() + 1) / 2 };
         for (lane, t) in target.iter_mut().enumerate().take(n_write) {
-            *t = enc(xb, yb, lane);
+            *t = enc(xb, yb, lane, call);
         }
         finish_callback(act)
     }
